@@ -665,6 +665,54 @@ func (c *Ctx) trailingRule(rule string, pl *ssa.Function, lineAlloc *ssa.Alloc, 
 		}
 	}
 	r.Add(rule, "split-operand", c.InstrPos(split), c.FuncKey(host), "the split is applied to a suffix of the received line", okSrc, "operand derives from the parameter by s[i:] slicing / the remainder of strings.Cut")
+	// what is stored as the parameters is that list minus the verb, nothing re-joined or re-split in between
+	sources := map[ssa.Value]bool{}
+	if host == pl {
+		sources[app] = true
+		if fieldsCall != nil {
+			sources[fieldsCall] = true
+		}
+		if argsPhi != nil {
+			for _, e := range argsPhi.Edges {
+				if f, ok := e.(*ssa.Call); ok && calleeName(&f.Call) == "strings.Fields" {
+					sources[f] = true
+				}
+			}
+		}
+	} else {
+		for _, cs := range c.staticCallers(host) {
+			if v, ok := cs.(ssa.Value); ok && cs.Parent() == pl {
+				sources[v] = true
+			}
+		}
+	}
+	argsF := c.FieldVar(c.Client, "Line", "Args")
+	nSt := 0
+	funcInstrs(pl, func(in ssa.Instruction) {
+		st, ok := in.(*ssa.Store)
+		if !ok {
+			return
+		}
+		if fv, _ := fieldOf(st.Addr); fv != argsF {
+			return
+		}
+		sl, isSl := st.Val.(*ssa.Slice)
+		if !isSl {
+			return // the CTCP rewrite prepends to the stored list; checked by the CTCP rules
+		}
+		nSt++
+		okS, why := true, "Args = list[1:] of the split list"
+		if k, isK := constInt(sl.Low); !isK || k != 1 || sl.High != nil {
+			okS, why = false, "the stored parameters are not list[1:]"
+		}
+		for _, o := range c.originsLocal(sl.X) {
+			if !sources[o] {
+				okS, why = false, "the stored parameters derive from "+o.String()+", not from the split list itself (re-joined or re-split)"
+			}
+		}
+		r.Add(rule, fmt.Sprintf("args-store#%d", nSt), c.InstrPos(st), c.FuncKey(pl), "the parameters stored in the line are the split list minus the verb", okS, why)
+	})
+	r.Floor(rule, "stores of the split list to Line.Args", nSt, 1)
 }
 
 // isElemOf: v is the load of element idx of the slice value sl.
